@@ -1,0 +1,16 @@
+//go:build verif
+
+package readline
+
+import (
+	"io"
+
+	"github.com/reeflective/readline/internal/core"
+)
+
+// VerifWrapStdin lets a verification harness interpose on the stream
+// from which the key reader takes terminal input. It is only compiled
+// with the `verif` build tag and is not part of the public API.
+func VerifWrapStdin(wrap func(io.ReadCloser) io.ReadCloser) {
+	core.Stdin = wrap(core.Stdin)
+}
